@@ -154,7 +154,7 @@ class BMC:
     def node_access(self, n):
         d = n.desc; kind = d[0]
         if kind in ("aload", "pload"): return (d[1], False)
-        if kind in ("astore", "aswap", "afadd", "afsub", "acas", "pstore"): return (d[1], True)
+        if kind in ("astore", "aswap", "afadd", "afsub", "acas", "pstore", "armw"): return (d[1], True)
         if kind == "free": return (("root", d[1]), True)
         if kind == "wake": return (("woken",), True)
         if kind == "park": return (("woken",), True)
@@ -225,6 +225,13 @@ class BMC:
                 elif kind in ("afadd", "afsub", "aswap"):
                     newreg[n.rvars[0]] = z3.If(at, mem[key], newreg[n.rvars[0]])
                     nv = {"afadd": lambda: mem[key] + d[2], "afsub": lambda: mem[key] - d[2], "aswap": lambda: d[2]}[kind]()
+                    new_mem[key] = z3.If(at, nv, new_mem[key])
+                elif kind == "armw":
+                    cur = mem[key]; x = d[3]
+                    nv = {"fetch_max": lambda: z3.If(z3.UGE(cur, x), cur, x), "fetch_min": lambda: z3.If(z3.ULE(cur, x), cur, x),
+                          "fetch_or": lambda: (z3.Or(cur, x) if z3.is_bool(cur) else cur | x), "fetch_and": lambda: (z3.And(cur, x) if z3.is_bool(cur) else cur & x),
+                          "fetch_xor": lambda: (z3.Xor(cur, x) if z3.is_bool(cur) else cur ^ x)}[d[2]]()
+                    newreg[n.rvars[0]] = z3.If(at, cur, newreg[n.rvars[0]])
                     new_mem[key] = z3.If(at, nv, new_mem[key])
                 elif kind == "astore":
                     new_mem[key] = z3.If(at, d[2], new_mem[key])
